@@ -7,7 +7,7 @@ From RPC Require Import Res.
 From RPC.Conn Require Model Inv Close.
 From RPC.Pool Require Model InvLemmas Inv.
 From RPC.LB Require Model Inv.
-From RPC.Server Require Model Inv.
+From RPC.Server Require Model Inv Live.
 From RPC.Stream Require Model Inv.
 
 (* ---- Conn ---- *)
@@ -81,6 +81,19 @@ Theorem C20_server_tail_order : Server.Model.tail_steps Generated.servecodec_tai
   Server.Model.safe_order Server.Model.servecodec_tail = true.
 Proof. exact Server.Inv.servecodec_tail_safe. Qed.
 
+(* ... and, as one theorem about runs rather than one step at a time: once the reader has left its
+   loop there is a finite run of the connection's own steps (queued requests are decoded, dispatched
+   handlers run and return, the teardown tail is executed) after which ServeCodec has returned,
+   nothing is queued or running, the WaitGroup counter is zero, and - for the order read from the
+   source - no fault (WaitGroup reuse, stream table iterated while writable) occurred on the way *)
+Theorem C20_server_teardown_terminates : forall tail0 cf s, Server.Inv.reachable tail0 cf s ->
+  Server.Model.s_rd_alive s = false ->
+  exists tr s', Forall Server.Live.internal tr /\ Server.Model.run tail0 cf tr s = Some s' /\
+    Server.Live.idle s' /\ Server.Model.s_tail s' = [] /\ Server.Model.s_wg s' = 0%nat /\
+    Server.Model.s_arrived s' = Server.Model.s_arrived s /\
+    (Server.Model.safe_order tail0 = true -> Server.Model.s_fault s' = false).
+Proof. exact Server.Live.teardown_terminates. Qed.
+
 (* ---- streams ---- *)
 Theorem C20_client_streams_closed_with_connection : forall x x', Stream.Inv.reachable Stream.Model.current x ->
   Stream.Model.step Stream.Model.current x Stream.Model.ConnLoss = Some x' ->
@@ -104,5 +117,6 @@ Print Assumptions C20_client_close.
 Print Assumptions C20_server_teardown_progress.
 Print Assumptions C20_server_waitgroup_exact.
 Print Assumptions C20_server_tail_order.
+Print Assumptions C20_server_teardown_terminates.
 Print Assumptions C20_client_streams_closed_with_connection.
 Print Assumptions C20_server_streams_closed_by_teardown.
